@@ -63,7 +63,7 @@ fn gen_line(rng: &mut Rng, t: &mut Track) -> String {
     let f = t.fresh;
     let wild = rng.chance(1, 25);
     loop {
-        let choice = rng.below(66);
+        let choice = rng.below(68);
         let line: String = match choice {
             0..=5 => {
                 if t.depth >= 5 && !wild {
@@ -230,6 +230,12 @@ fn gen_line(rng: &mut Rng, t: &mut Track) -> String {
             ),
             // the argument text holds a near miss and then every delimiter choice 24 can define
             62 => format!("[{} xy.]", mac(rng)),
+            // the singleton variables of the job component (state outside the register banks)
+            66..=67 => format!(
+                "\\dumpValidate={} \\dumpFormat={} [\\the\\dumpValidate \\the\\dumpFormat]",
+                num(rng),
+                num(rng)
+            ),
             64..=65 => format!("[{} abxzyc xyz x\\relax z abcd. ;;;: pxyzw .]", mac(rng)),
             _ => "[\\the\\ca \\the\\cb \\the\\catcode`\\Q \\the\\endlinechar \\the\\globaldefs \\the\\ta]".into(),
         };
@@ -340,6 +346,7 @@ fn dump(vm: &VM<VState>) -> serde_json::Value {
 const READBACK: &[&str] = &[
     "[\\the\\count1 \\the\\count2 \\the\\count3 \\the\\count255 \\the\\dimen1 \\the\\skip2 \\the\\toks1 \\the\\toks3 ]",
     "[\\the\\ca \\the\\cb \\the\\cm \\the\\catcode`\\Q \\the\\mathcode`\\Q \\the\\endlinechar \\the\\globaldefs \\the\\year \\the\\nia \\the\\nib \\the\\naa 2 \\the\\nab 2 ]",
+    "[\\the\\dumpValidate \\the\\dumpFormat ]",
     "[\\ma]",
     "[\\mb pq.]",
     "[\\mc]",
